@@ -150,6 +150,13 @@ def apply_op(srf, ref, op, cfg, twin):
         if isinstance(pv, np.ndarray):
             srf.__dict__.setdefault("_caller_arrays", []).append(pv)
         ref["period"] = _fill(op["v"], ref["dim"])
+    elif k == "period_inplace":
+        # read the attribute, change the array in place, assign it back (e.g. ``gen.period *= 0.5``)
+        pv = srf.generator.period
+        pv = np.array(pv, dtype=np.double) if np.ndim(pv) == 0 else pv
+        pv *= op["f"]
+        srf.generator.period = pv
+        ref["period"] = [float(x) * op["f"] for x in ref["period"]]
     elif k == "caller_reuse":
         # the caller overwrites the arrays it passed earlier; the object owns its settings
         for a in srf.__dict__.get("_caller_arrays", []):
@@ -299,6 +306,8 @@ def ops_for(cfg, tier="quick"):
             A({"k": "model", "attr": "anis", "v": [BASE_ANIS[d][0], 1.7]})  # only one of the ratios changes
         if cfg.get("rotate", True):
             A({"k": "model", "attr": "angles", "v": [1.0, 0.5, -0.4][: len(BASE_ANGLES[d])]})
+            if d == 3:
+                A({"k": "model", "attr": "angles", "v": [0.7, 0.0, -0.4]})  # a zero angle among non-zero ones
     for name, v in cfg.get("opt_ops", []):
         A({"k": "opt", "name": name, "v": v})
     A({"k": "assign_model", "which": "equal"})
@@ -308,6 +317,7 @@ def ops_for(cfg, tier="quick"):
         A({"k": "gen_mode_no", "v": 4})
         A({"k": "period", "v": [7.3, 12.0, 6.0][:d]})
         A({"k": "period", "v": 9.0})
+        A({"k": "period_inplace", "f": 0.5})
         A({"k": "caller_reuse"})
         A({"k": "gen_update", "model": "current", "period": [8.0, 6.0, 11.0][:d]})
         A({"k": "gen_update", "model": "equal", "mode_no": [4, 8, 2][:d]})
